@@ -33,6 +33,10 @@ CLAIMS = {
    tech="sibling agreement of the positional/variadic loops + dominance (must-pass-through) in Function.Call + who-may-call Spec.Impl/Spec.Type",
    text="Decides: both argument loops of returnTypeForValues and Call read the same Parameter flags with the same exits; variadic argument errors carry the adjusted index; Spec.Impl runs only in Call, dominated by a successful returnTypeForValues on the same args, by the unknown short-circuit exit and by a recovering defer; the implementation's result is returned only after TestConformance; the RefineResult defer is registered unconditionally for typed results.",
    note="Not decided: behaviour for all flag combinations at run time; panics inside the refinement defer itself. "),
+ "C20": dict(rules=["C20.no-payload-write","C20.no-global-write","C20.closure-state","C20.builder-copy","C20.set-storage","C20.no-alias-out","C20.no-retention-in"],
+   tech="ownership / alias / effect analysis over go/ssa (origin tracing with field-sensitive callee summaries): who may write payload memory, what escapes through results, what is retained from parameters, which escaping closures write captured state",
+   text="Decides: no function writes memory reached through Value.v, marker.realV/marks, unknownType.refinement or a typeImpl record of anything it did not allocate; nothing writes package-level state after init; no escaping closure writes a captured variable; a refinement record is never shared between a value and the mutable builder; every function returning a set returns a fresh bucket map and buckets are not shared while Add appends in place; exported accessors returning Go references return copies; exported constructors do not retain caller-owned slices/maps/pointers (documented transfers tabled).",
+   note="Not decided: actual schedules and the race detector's view; purity of application-supplied capsule operations; aliases laundered through interface-typed fields beyond the summaries' depth (recorded as assumed). "),
 }
 
 NA = {
